@@ -605,3 +605,36 @@ package router
 //@   # penultimate / last hop: fresh timestamp and valid hop validation field, keyed by the full MAC of the hop verified last
 //@   ensures result == pForward && (pen || last) ==> sender <= time.lastNow+1000000000 && time.lastNow <= sender+3000000000
 //@   ensures result == pForward && (pen || last) ==> len(hvf) == 4 && hvf[0] == libepic.epicMac(lastFullMac[0], lastFullMac[1], lastFullMac[2], lastFullMac[3], lastFullMac[4], lastFullMac[5], lastFullMac[6], lastFullMac[7], lastFullMac[8], lastFullMac[9], lastFullMac[10], lastFullMac[11], lastFullMac[12], lastFullMac[13], lastFullMac[14], lastFullMac[15], e.PktID.Timestamp, e.PktID.Counter, uint64(p.scionLayer.SrcIA), uint8(p.scionLayer.SrcAddrType), p.scionLayer.RawSrcAddr, p.scionLayer.PayloadLen, ts0, 0) && hvf[1] == libepic.epicMac(lastFullMac[0], lastFullMac[1], lastFullMac[2], lastFullMac[3], lastFullMac[4], lastFullMac[5], lastFullMac[6], lastFullMac[7], lastFullMac[8], lastFullMac[9], lastFullMac[10], lastFullMac[11], lastFullMac[12], lastFullMac[13], lastFullMac[14], lastFullMac[15], e.PktID.Timestamp, e.PktID.Counter, uint64(p.scionLayer.SrcIA), uint8(p.scionLayer.SrcAddrType), p.scionLayer.RawSrcAddr, p.scionLayer.PayloadLen, ts0, 1) && hvf[2] == libepic.epicMac(lastFullMac[0], lastFullMac[1], lastFullMac[2], lastFullMac[3], lastFullMac[4], lastFullMac[5], lastFullMac[6], lastFullMac[7], lastFullMac[8], lastFullMac[9], lastFullMac[10], lastFullMac[11], lastFullMac[12], lastFullMac[13], lastFullMac[14], lastFullMac[15], e.PktID.Timestamp, e.PktID.Counter, uint64(p.scionLayer.SrcIA), uint8(p.scionLayer.SrcAddrType), p.scionLayer.RawSrcAddr, p.scionLayer.PayloadLen, ts0, 2) && hvf[3] == libepic.epicMac(lastFullMac[0], lastFullMac[1], lastFullMac[2], lastFullMac[3], lastFullMac[4], lastFullMac[5], lastFullMac[6], lastFullMac[7], lastFullMac[8], lastFullMac[9], lastFullMac[10], lastFullMac[11], lastFullMac[12], lastFullMac[13], lastFullMac[14], lastFullMac[15], e.PktID.Timestamp, e.PktID.Counter, uint64(p.scionLayer.SrcIA), uint8(p.scionLayer.SrcAddrType), p.scionLayer.RawSrcAddr, p.scionLayer.PayloadLen, ts0, 3)
+
+//@ # ---- C08: from decoding to the fast path. The decoder's postconditions are what process() assumes.
+//@ macro processorInv(p) = (p.d != nil && p.mac != nil && len(p.macInputBuffer) >= 48)
+//@ func (*scionPacketProcessor).processSCION
+//@   props C08
+//@   requires processorInv(p) && p.pkt != nil && p.pkt.Link != nil && !p.effectiveXover && addrInv(p)
+//@   requires !sameArray(p.macInputBuffer, p.pkt.RawPacket)
+//@   requires typeis(p.scionLayer.Path, *scion.Raw) ==> asptr(p.scionLayer.Path, *scion.Raw) != nil && rawInv(asptr(p.scionLayer.Path, *scion.Raw)) && sameArray(asptr(p.scionLayer.Path, *scion.Raw).Raw, p.pkt.RawPacket)
+//@   ensures result == pForward ==> typeis(p.scionLayer.Path, *scion.Raw) && lastProcessDisp == pForward
+
+//@ # frame assumptions for gopacket's layer interfaces (pure accessors)
+//@ iface gopacket.DecodingLayer.NextLayerType
+//@   modifies nothing
+//@ iface gopacket.DecodingLayer.CanDecode
+//@   modifies nothing
+//@ iface gopacket.LayerClass.Contains
+//@   modifies nothing
+//@ iface Link.IfID
+//@   modifies nothing
+//@ iface Link.BFDSession
+//@   modifies nothing
+//@ func (*scionPacketProcessor).processBFD
+//@   props C08
+//@   requires p.pkt != nil && p.pkt.Link != nil
+//@ # per-processor invariants (newPacketProcessor) and the packet handed over by the underlay
+//@ func (*scionPacketProcessor).processPkt
+//@   props C08
+//@   maxpaths 20000
+//@   inlines decodeLayers
+//@   requires processorInv(p) && pkt != nil && pkt.Link != nil && !sameArray(p.macInputBuffer, pkt.RawPacket)
+//@   requires p.scionLayer.pathPool != nil ==> len(p.scionLayer.pathPool) >= 4 && p.scionLayer.pathPoolRaw != nil && forall i int :: 0 <= i && i < len(p.scionLayer.pathPool) ==> p.scionLayer.pathPool[i] != nil
+//@   # the receiver hands over packets fresh from Packet.reset: egress is zero, and interface 0 (the internal link) always exists
+//@   requires p.d.interfaces[0] != nil && pkt.egress == 0
